@@ -152,11 +152,12 @@ Theorem C19_helpers_mode_independent : forall e inp k (r r' : report),
 Proof. exact report_modes. Qed.
 Print Assumptions C19_helpers_mode_independent.
 
-(* lazy byte() = current - begin ignores the initial byte, position().byte does not *)
-Theorem C19_lazy_byte_ignores_initial_byte : forall e inp k, (k <= length (idata inp))%nat ->
-  pbyte (lazy_position e inp k) = (pbyte (iinit inp) + lazy_byte k)%N.
-Proof. exact lazy_byte_vs_position_byte. Qed.
-Print Assumptions C19_lazy_byte_ignores_initial_byte.
+(* lazy byte() = initial byte + ( current - begin ) = position().byte (defect repaired by /repo e0cf8e4; before, the initial
+   byte counter was not added) *)
+Theorem C19_lazy_byte_is_position_byte : forall e inp k, (k <= length (idata inp))%nat ->
+  pbyte (lazy_position e inp k) = lazy_byte inp k.
+Proof. exact lazy_byte_is_position_byte. Qed.
+Print Assumptions C19_lazy_byte_is_position_byte.
 
 Theorem C19_eager_byte_is_position_byte : forall e inp k, (k <= length (idata inp))%nat ->
   eager_byte e inp k = Some (pbyte (lazy_position e inp k)).
